@@ -165,6 +165,11 @@ def families(tier):
         small = [f for f in A.with_int_mode(small, tier) if f.name[f.name.index('/'):] not in primary]
         fams = big + small
         st = 2
+    graze = [X.Ln(p, d) for p in ((0, 0, 0), (1, 1, 0), (2, 0, 1)) for d in ((8, -7, 0), (0, 8, -7), (-7, 0, 8), (8, 7, 1), (1, 8, 7), (7, 1, -8), (-8, 7, 1))]
+    graze += [X.Sg(l[1], X.add(l[1], l[2])) for l in graze[::2]] + [X.Hl(l[1], X.neg(l[2])) for l in graze[1::2]]
+    for pose in (A.PZ, A.P1):
+        gz = Mixed('graze', pose, graze, planes[::2 if tier == 'quick' else 1], chunk=2)
+        fams.append(gz)
     fams.append(MovedMixed('moved', A.P1, planes[::st] + linelikes[::st * 5], linelikes[::st] + planes[::st] + points[::3], both_orders=False, chunk=2))
     return fams
 
